@@ -75,7 +75,8 @@ def make_world(book, touch=False):
         # cheap: premiums below 0.0024, where 12.5 % of the premium (not 0.03 % per contract) is the binding fee term, level by level different;
         # deep: a deep in-the-money option whose neighbouring levels lie within 0.1 % of each other
         mk = Decimal("0.002") if touch == "cheap" else Decimal("0.64")
-        asks, bids = book_rows(book, 1, 1, mk)
+        # cheap: the best ask sits on the mark (0.002, cap binds) and the next ones above 0.0024 (flat fee binds): an order sweeping both mixes the two terms
+        asks, bids = book_rows(book, 0 if touch == "cheap" else 1, 1, mk)
         c1_mark = float(mk)
     else:
         asks, bids = book_rows(book, 0 if touch else 1, 0 if touch else 1)
